@@ -647,7 +647,10 @@ func (m *GRPCBroker) Run() {
 		if msg.Knock != nil && msg.Knock.Knock && !msg.Knock.Ack {
 			p = m.getServerStream(msg.ServiceId)
 			// The server side doesn't close the channel immediately as it needs
-			// to continuously listen for knocks.
+			// to continuously listen for knocks. A knock that nobody picks up is
+			// dropped before its dialer stops waiting for the ack, so that a
+			// listener accepted later never answers a knock nobody waits for.
+			go m.knockExpiry(p, msg)
 		} else {
 			p = m.getClientStream(msg.ServiceId)
 			go m.timeoutWait(msg.ServiceId, p)
@@ -693,6 +696,32 @@ func (m *GRPCBroker) getServerStream(id uint32) *gRPCBrokerPending {
 		doneCh: make(chan struct{}),
 	}
 	return m.serverStreams[id]
+}
+
+// knockExpiry drops a parked knock that no listener has picked up in time.
+// The dialer gives up waiting for the ack after 5 seconds; a knock answered
+// after that would leave the muxer expecting a stream that never arrives,
+// so parked knocks are only kept for a little less than that.
+func (m *GRPCBroker) knockExpiry(p *gRPCBrokerPending, msg *plugin.ConnInfo) {
+	select {
+	case <-p.doneCh:
+		return
+	case <-m.doneCh:
+		return
+	case <-time.After(4 * time.Second):
+	}
+
+	select {
+	case parked := <-p.ch:
+		if parked != msg {
+			// A newer knock took the slot in the meantime: leave it there.
+			select {
+			case p.ch <- parked:
+			default:
+			}
+		}
+	default:
+	}
 }
 
 func (m *GRPCBroker) timeoutWait(id uint32, p *gRPCBrokerPending) {
